@@ -61,6 +61,15 @@ GradCompile(e) ==
           /\ obs' = [q |-> GradOf(e).id, served |-> r.served.id, what |-> "gradient"]
     /\ hist' = Append(hist, <<"GradCompile", e.id>>)
     /\ UNCHANGED nfill
+\* compile_hessian(node, [x, y]): every entry of the symbolic Hessian is compiled through the compile cache;
+\* the mixed entry of p * x * y is the parameter leaf
+HessCompile(e) ==
+    /\ Len(hist) < MaxOps /\ e.kind = "node" /\ e.owner \in {"M", "N"}
+    /\ LET r == CompileServe(GradOf(e)) IN
+       /\ gCompile' = r.cache
+       /\ obs' = [q |-> GradOf(e).id, served |-> r.served.id, what |-> "hessian"]
+    /\ hist' = Append(hist, <<"HessCompile", e.id>>)
+    /\ UNCHANGED <<gGrad, nfill>>
 \* unrelated expressions pass through the caches (eviction)
 Fill ==
     /\ Len(hist) < MaxOps /\ nfill < Cap + 1
@@ -70,7 +79,7 @@ Fill ==
     /\ hist' = Append(hist, <<"Fill", nfill>>)
 
 Init == gCompile = <<>> /\ gGrad = <<>> /\ hist = <<>> /\ obs = NoObs /\ nfill = 0
-Next == (\E e \in Exprs : Compile(e)) \/ (\E e \in {nM, nN} : GradCompile(e)) \/ Fill
+Next == (\E e \in Exprs : Compile(e)) \/ (\E e \in {nM, nN} : GradCompile(e) \/ HessCompile(e)) \/ Fill
 Spec == Init /\ [][Next]_vars
 
 ById(i) == CHOOSE e \in Exprs : e.id = i
